@@ -86,7 +86,8 @@ class Check(object):
         n_inst = 0
         for rr in self.results:
             n_inst += len(rr.instances)
-            if len(rr.instances) < rr.floor:
+            if len(rr.instances) < rr.floor and not rr.findings:
+                # (a rule that positively found a violation is not vacuous: its finding is reported)
                 raise AnalysisError('rule %s matched %d instances, fewer than the %d confirmed by hand: '
                                     'the rule would pass vacuously' % (rr.rule, len(rr.instances), rr.floor))
             seen_idents = {}
